@@ -234,7 +234,10 @@ def getCol (cs : Cols) (name : String) : Option (List Int) :=
 structure ContState where
   lastEnd : Option Int := none
   lastRun : Option (Option String) := none      -- `None` initially, then `some chunk.run_id`
-  lastSubrun : Option Run := none                -- `{"run_id": None}` initially / non-superrun
+  lastSubrun : Option Run := none                -- `{"run_id": None}` initially; the dict of a superrun chunk
+  /-- `last_subrun` is Python `None` (what `chunk.last_subrun` is for a non-superrun chunk); subscripting it
+  (`last_subrun["run_id"]`) raises `TypeError` -/
+  lastSubIsNone : Bool := false
 deriving Repr
 
 def Chunk.firstSubrun (c : Chunk) : Option Run :=
@@ -243,15 +246,16 @@ def Chunk.lastSubrun (c : Chunk) : Option Run :=
   if c.isSuperrun then c.subruns.bind (·.getLast?) else none
 
 def contStep (s : ContState) (c : Chunk) : Except Err ContState := do
-  let s := if s.lastRun != some c.runId then { s with lastEnd := none, lastSubrun := none } else s
-  let s := if c.isSuperrun then
-      if (c.firstSubrun.map (·.id)) != (s.lastSubrun.map (·.id)) then { s with lastEnd := none }
-      else { s with lastEnd := s.lastSubrun.map (·.stop) }
-    else s
+  let s := if s.lastRun != some c.runId then { s with lastEnd := none, lastSubrun := none, lastSubIsNone := false } else s
+  let s ← if c.isSuperrun then
+      if s.lastSubIsNone then throw Err.typeError
+      else if (c.firstSubrun.map (·.id)) != (s.lastSubrun.map (·.id)) then pure { s with lastEnd := none }
+      else pure { s with lastEnd := s.lastSubrun.map (·.stop) }
+    else pure s
   match s.lastEnd with
   | some e => if c.promisedContinuity && c.start != e then throw Err.valueError
   | none => pure ()
-  pure { lastEnd := some c.stop, lastRun := some c.runId, lastSubrun := c.lastSubrun }
+  pure { lastEnd := some c.stop, lastRun := some c.runId, lastSubrun := c.lastSubrun, lastSubIsNone := !c.isSuperrun }
 
 /-- number of chunks yielded before the check fails (all of them if it never fails) -/
 def continuityCheck (cs : List Chunk) : Except Err Unit :=
